@@ -688,8 +688,9 @@ def worker(run, db, name, ops, nobj, explicit, stamps, nobj2=0):
                     if hasattr(obj, 'value') and goid(obj) not in run.pending[name] \
                             and obj._p_jar._savepoint_storage is None:
                         state = obj._p_jar.oldstate(obj, obj._p_serial)
-                        epoch_of(obj)['reads'].append((goid(obj), u64(obj._p_serial), state['value'], run.tick(),
-                                                       'oldstate', False))
+                        if isinstance(state, dict):
+                            epoch_of(obj)['reads'].append((goid(obj), u64(obj._p_serial), state['value'],
+                                                           run.tick(), 'oldstate', False))
                 elif k == 'rcur':
                     read(op[1])
                     obj = st['objs'][op[1]]
